@@ -607,6 +607,8 @@ fn seq_alphabet() -> Vec<Op> {
         // call leaves behind in the rasteriser only shows in the calls that follow
         Op::Fill(PathSpec::rect(0.5, -3., 1.5, 3.125), srcs[0].clone(), so),
         Op::Fill(PathSpec::poly(&[(0.25, 1.875), (2.5, 2.0), (1.0, 6.0)]), srcs[0].clone(), so),
+        // without antialiasing, running far past the right edge on the lowest row it touches
+        Op::Fill(PathSpec::rect(0.5, 0.5, 60.0, 1.25), srcs[0].clone(), Opts { mode: BlendMode::SrcOver, alpha: 1.0, aa: false }),
         Op::FillRect(0., 0., 2., 1., srcs[0].clone(), Opts { mode: BlendMode::Src, alpha: 1.0, aa: true }),
         Op::FillRect(0.5, 0.5, 1.5, 1.0, srcs[16].clone(), so),
         Op::FillRect(-5., -5., 20., 20., srcs[2].clone(), Opts { mode: BlendMode::Multiply, alpha: 2.0, aa: true }),
@@ -622,6 +624,8 @@ fn seq_alphabet() -> Vec<Op> {
         Op::PushClipRect(1, 0, 3, 2),
         Op::PushClipRect(0, 0, 1, 2),
         Op::PushClipRect(2, 2, 1, 0),
+        // a clip rectangle reaching beyond the surface on every side (clip paths pushed under it)
+        Op::PushClipRect(-3, -3, 9, 9),
         Op::PushClip(tri.clone()),
         Op::PushClip(PathSpec::rect(-9., -9., 2., 2.)),
         Op::PopClip,
@@ -812,7 +816,7 @@ impl Check for C07 {
 
     fn run(&self, run: &Run) {
         let q = run.tier.quick();
-        run.rule("per call: all argument vectors with at most d deviations from the nominal vector over per-parameter boundary alphabets (d iterated; see bounds_completed), filtered to the property's stated domain; plus all call sequences up to the length bound over a 37-call alphabet of nominal and single-deviation calls (pushes auto-closed); each case runs on a fresh target in a child process with overflow checks and debug assertions on; oracle: no unwind, no abort, no allocation failure, returns within the horizon; non-trivial = case ran to completion");
+        run.rule("per call: all argument vectors with at most d deviations from the nominal vector over per-parameter boundary alphabets (d iterated; see bounds_completed), filtered to the property's stated domain; plus all call sequences up to the length bound over a 39-call alphabet of nominal and single-deviation calls (pushes auto-closed); each case runs on a fresh target in a child process with overflow checks and debug assertions on; oracle: no unwind, no abort, no allocation failure, returns within the horizon; non-trivial = case ran to completion");
         run.assume("domain filters: device-space geometry within +-4000 px incl. stroke outset, fewer than 5*10^4 dashes by an upper-bound estimate, dash arrays with a negative entry but positive sum excluded (caller error)");
         let d = if q { 3 } else { 4 };
         let seq_len = if q { 4 } else { 5 };
